@@ -8,7 +8,7 @@ Op lines (numbers are decimal naturals, `-` = none):
                                                             ids must be 0,1,2,… in order
   quota id=<n> parent=<n> pct=<1..100>                      allocation_percentage child
   start level=<1|2> t=<ns> [lim=<q,q,…>] [fv=<0..3>]
-  inc|allowed|dec|req q=<n> r=<n> t=<ns> hdrs=<-|i:v,i:v,…> [costs=<-|i:enc,…>]
+  inc|allowed|dec|req q=<n> r=<n> t=<ns> hdrs=<-|i:v,i:v,…> [costs=<-|i:enc,…>] [body=<0..6>]
                                                               v = d ("default") or a number ≥ 1; enc = text of x-c<i>
   counters q=<n> t=<ns> groups=<g,g,…>                         g = 0 ("default") or a number ≥ 1
 -/
@@ -174,7 +174,12 @@ def runStep (s : RunSt) (line : String) : RunSt × String :=
         if !(s.level.isSome && s.okCfg) then (s, "err:nostart")
         else match kvNat ws "r", parseAllHdrs (s.level == some 2) ws with
           | some r, some h =>
+            -- `body=<0..6>`: which body the request carries; what is counted never depends on it
+            let bodyOk := match kv ws "body" with
+              | none => true
+              | some v => (match v.toNat? with | some n => n ≤ 6 | none => false)
             if s.quotas[q]?.isNone then (s, "err:noquota")
+            else if !bodyOk then (s, "bad-op")
             else if s.level == some 2 && kind != .req then (s, "err:level")
             else if s.level == some 2 then
               let (st', b) := engineReq ⟨s.quotas⟩ s.refs s.st q r t h
